@@ -113,6 +113,74 @@ func (n *Node) toMessage() *proto.Message {
 	panic("bad node kind")
 }
 
+// noAbsent reports whether the tree is free of nil messages and nil arrays.
+func (n *Node) noAbsent() bool {
+	if n.Kind == 'z' || n.Kind == 'Z' {
+		return false
+	}
+	for _, e := range n.Es {
+		if !e.noAbsent() {
+			return false
+		}
+	}
+	return true
+}
+
+// buildIncremental builds the same message top-down, the way an application that fills a reply step by step does: a
+// nested array is appended to its parent before it is filled, payloads are set after the message was appended, and
+// observe() is called after every step (the caller serializes the root there, so every later step changes a value
+// that was already serialized once).
+func (n *Node) buildIncremental(observeRoot func(root *proto.Message)) *proto.Message {
+	var root *proto.Message
+	observe := func() { observeRoot(root) }
+	var fill func(n *Node, m *proto.Message)
+	shell := func(n *Node) *proto.Message {
+		switch n.Kind {
+		case 's':
+			return proto.NewMessageWithType(proto.StringMessage).SetBytes([]byte("?"))
+		case 'e':
+			return proto.NewMessageWithType(proto.ErrorMessage).SetBytes([]byte("?"))
+		case 'i':
+			return proto.NewMessageWithType(proto.IntegerMessage).SetBytes([]byte("0"))
+		case 'b', 'n':
+			return proto.NewMessageWithType(proto.BulkMessage).SetBytes([]byte("?"))
+		case 'a':
+			return proto.NewMessageWithType(proto.ArrayMessage).SetArray(proto.NewArray())
+		}
+		return n.toMessage()
+	}
+	fill = func(n *Node, m *proto.Message) {
+		switch n.Kind {
+		case 's', 'e', 'i':
+			m.SetBytes(n.P)
+			observe()
+		case 'b':
+			p := n.P
+			if p == nil {
+				p = []byte{}
+			}
+			m.SetBytes(p)
+			observe()
+		case 'n':
+			m.SetBytes(nil)
+			observe()
+		case 'a':
+			for _, e := range n.Es {
+				c := shell(e)
+				if err := m.Append(c); err != nil {
+					panic(err)
+				}
+				observe()
+				fill(e, c)
+			}
+		}
+	}
+	root = shell(n)
+	observe()
+	fill(n, root)
+	return root
+}
+
 // fromMessage converts a parsed message into a Node using only the public accessors.
 func fromMessage(m *proto.Message) *Node {
 	if m == nil {
